@@ -100,6 +100,10 @@ Fixpoint rt (t : ty) (v : gv) : bool :=
          end) fs l
   | TBytes, VNil => true
   | TBytes, VSlice l => forallb (fun x => match x with VInt z => (0 <=? z)%Z && (z <? 256)%Z | _ => false end) l
+  | TMapI _ _ _, VNil => true
+  | TMapI signed bits e, VMap l =>
+      width bits && nodup_keys (map fst l) && sorted_keys (map fst l) &&
+      forallb (fun kv : list N * gv => canon_key signed bits (fst kv) && rt e (snd kv)) l
   | _, _ => false
   end.
 
@@ -143,7 +147,7 @@ Proof. induction l as [|y r IH]; intros H; [destruct H|]. cbn [fold_right]. dest
 (* a value that is written as something else than null *)
 Lemma encj_not_null t v : rt t v = true -> is_vnil v = false -> is_null (encj t v) = false.
 Proof.
-  revert v. induction t as [ |bits|bits| | |e IH|e IH|n e IH|e IH|fs| ]; intros v Hr Hn; destruct v; try discriminate Hr; try discriminate Hn; try reflexivity.
+  revert v. induction t as [ |bits|bits| | |e IH|e IH|n e IH|e IH|fs| |sg bits e IH]; intros v Hr Hn; destruct v; try discriminate Hr; try discriminate Hn; try reflexivity.
   - cbn [encj]. destruct b; reflexivity.
   - cbn [rt] in Hr. apply andb_true_iff in Hr. destruct Hr as [Hv Hr]. cbn [encj]. apply IH; [exact Hr|]. apply negb_true_iff. exact Hv.
 Qed.
@@ -210,6 +214,52 @@ Proof.
   intros kv Hkv. rewrite map_app. apply existsb_app_false; [apply Hfresh; right; exact Hkv|].
   cbn [map fst existsb]. rewrite orb_false_r.
   (* kv's key differs from k: k is not among the later keys *)
+  destruct (list_eqb (fst kv) k) eqn:E; [|reflexivity]. apply list_eqb_eq in E. subst k.
+  assert (Hin : existsb (list_eqb (fst kv)) (map fst l) = true).
+  { apply existsb_exists. exists (fst kv). split; [apply in_map; exact Hkv|apply list_eqb_eq; reflexivity]. }
+  congruence.
+Qed.
+
+(* integer keys: a canonical key is digits behind an optional sign -- the string scanner leaves it as it is *)
+Lemma canon_key_plain signed bits k : canon_key signed bits k = true -> forallb plain_char k = true.
+Proof.
+  unfold canon_key, key_int. intro H.
+  assert (D : forall body, all_digits body = true -> forallb plain_char body = true).
+  { intros body Hb. unfold all_digits in Hb. destruct body as [|c r]; [discriminate|]. rewrite forallb_forall in Hb |- *. intros x Hx. specialize (Hb x Hx).
+    apply andb_true_iff in Hb. destruct Hb as [H1 H2]. apply N.leb_le in H1. apply N.leb_le in H2. unfold plain_char.
+    destruct (N.leb_spec 32 x), (N.ltb_spec x 127), (N.eqb_spec x 34), (N.eqb_spec x 92), (N.eqb_spec x 60), (N.eqb_spec x 62), (N.eqb_spec x 38); try reflexivity; lia. }
+  destruct k as [|c r]; [discriminate H|].
+  destruct (N.eq_dec c 45) as [->|N1]; [|destruct (N.eq_dec c 43) as [->|N2]].
+  - destruct signed.
+    + destruct (all_digits r) eqn:A; [|discriminate H]. cbn [forallb]. rewrite (D r A). reflexivity.
+    + destruct (all_digits (45 :: r)) eqn:A; [|discriminate H]. exact (D _ A).
+  - destruct signed.
+    + destruct (all_digits r) eqn:A; [|discriminate H]. cbn [forallb]. rewrite (D r A). reflexivity.
+    + destruct (all_digits (43 :: r)) eqn:A; [|discriminate H]. exact (D _ A).
+  - assert (Hsame : match c :: r with 45 :: r0 => if signed then (true, r0) else (false, c :: r) | 43 :: r0 => if signed then (false, r0) else (false, c :: r) | _ => (false, c :: r) end = (false, c :: r)).
+    { destruct c as [|p]; [reflexivity|]. repeat (destruct p as [p|p|]; try reflexivity; try congruence). }
+    rewrite Hsame in H. destruct (all_digits (c :: r)) eqn:A; [|discriminate H]. exact (D _ A).
+Qed.
+Lemma canon_key_back signed bits k : canon_key signed bits k = true ->
+  match key_int signed bits k with Some z => Some (int_key signed bits z) | None => None end = Some k.
+Proof. unfold canon_key. destruct (key_int signed bits k) as [z|]; [|discriminate]. intro H. apply list_eqb_eq in H. rewrite <- H. reflexivity. Qed.
+
+Lemma map_back_k signed bits e (decf : jv -> gv -> dres) : forall l m,
+  nodup_keys (map fst l) = true ->
+  (forall kv, In kv l -> existsb (list_eqb (fst kv)) (map fst m) = false) ->
+  (forall kv, In kv l -> canon_key signed bits (fst kv) = true /\ decf (encj e (snd kv)) (zero e) = DOk (snd kv)) ->
+  map_loop_k decf (zero e) (fun k' => match key_int signed bits k' with Some z => Some (int_key signed bits z) | None => None end)
+    (map (fun kv : list N * jv => (fst kv, false, snd kv)) (map (fun kx : list N * gv => (fst kx, encj e (snd kx))) l)) m =
+  DOk (VMap (m ++ l)).
+Proof.
+  induction l as [|[k x] l IH]; intros m Hnd Hfresh H; cbn [map map_loop_k fst snd]; [rewrite app_nil_r; reflexivity|].
+  destruct (H (k, x) (or_introl eq_refl)) as [Hk Hx]. cbn [fst snd] in Hk, Hx.
+  rewrite (unq_plain k (canon_key_plain signed bits k Hk)). rewrite (canon_key_back signed bits k Hk). rewrite Hx.
+  pose proof (Hfresh (k, x) (or_introl eq_refl)) as Hf. cbn [fst] in Hf. rewrite (set_key_fresh k x m Hf).
+  cbn [map fst nodup_keys] in Hnd. apply andb_true_iff in Hnd. destruct Hnd as [Hk1 Hnd]. apply negb_true_iff in Hk1.
+  rewrite IH; [rewrite <- app_assoc; reflexivity|exact Hnd| |intros kv Hkv; apply H; right; exact Hkv].
+  intros kv Hkv. rewrite map_app. apply existsb_app_false; [apply Hfresh; right; exact Hkv|].
+  cbn [map fst existsb]. rewrite orb_false_r.
   destruct (list_eqb (fst kv) k) eqn:E; [|reflexivity]. apply list_eqb_eq in E. subst k.
   assert (Hin : existsb (list_eqb (fst kv)) (map fst l) = true).
   { apply existsb_exists. exists (fst kv). split; [apply in_map; exact Hkv|apply list_eqb_eq; reflexivity]. }
@@ -286,7 +336,7 @@ Theorem round_trip_n : forall n v, (vn v <= n)%nat -> forall t, rt t v = true ->
 Proof.
   induction n as [|n IH]; intros v Hn t Hr f Hf; [destruct v; cbn in Hn; lia|].
   destruct f as [|f]; [destruct v; cbn in Hf; lia|].
-  destruct t as [ |bits|bits| | |e|e|k e|e|fs| ]; destruct v as [ |b|z|s|x|l|l|l|l|g]; try discriminate Hr; cbn [rt] in Hr.
+  destruct t as [ |bits|bits| | |e|e|k e|e|fs| |sg bits e]; destruct v as [ |b|z|s|x|l|l|l|l|g]; try discriminate Hr; cbn [rt] in Hr.
   - (* bool *) cbn [encj dec]. destruct b; reflexivity.
   - (* int *) apply andb_true_iff in Hr. destruct Hr as [Hw Hr]. cbn [encj dec is_null]. rewrite (int_round_trip bits z Hw Hr). reflexivity.
   - (* uint *) apply andb_true_iff in Hr. destruct Hr as [Hw Hr]. cbn [encj dec is_null]. rewrite (uint_round_trip bits z Hw Hr). reflexivity.
@@ -322,6 +372,14 @@ Proof.
     cbn [encj dec is_null]. fold (bytes_of l).
     pose proof (b64_json_round_trip (bytes_of l) Hb) as E. destruct (unq (b64enc (bytes_of l))) as [s0|]; [|discriminate E].
     rewrite E, Hm. reflexivity.
+  - (* nil integer-keyed map *) reflexivity.
+  - (* integer-keyed map *) apply andb_true_iff in Hr. destruct Hr as [Hr Hall]. apply andb_true_iff in Hr. destruct Hr as [Hr Hso].
+    apply andb_true_iff in Hr. destruct Hr as [Hwd Hnd].
+    cbn [encj dec is_null]. cbn [zero]. cbn [vn] in Hn, Hf. rewrite forallb_forall in Hall.
+    rewrite (sort_sorted (map (fun kx : list N * gv => (fst kx, encj e (snd kx))) l)) by (rewrite map_map; cbn [fst]; exact Hso).
+    rewrite (map_back_k sg bits e (dec f e) l [] Hnd); [reflexivity|intros kv _; reflexivity|].
+    intros kv Hkv. specialize (Hall kv Hkv). apply andb_true_iff in Hall. destruct Hall as [Hk Hx]. split; [exact Hk|].
+    pose proof (vn_in_snd kv l Hkv) as Hle. apply (IH (snd kv) ltac:(lia) e Hx f). lia.
 Qed.
 
 Theorem round_trip t v : rt t v = true -> forall f, (vn v <= f)%nat -> dec f t (encj t v) (zero t) = DOk v.
@@ -359,7 +417,7 @@ Qed.
 Theorem encj_wfp_n : forall n v, (vn v <= n)%nat -> forall t, rt t v = true -> wfp (encj t v) = true.
 Proof.
   induction n as [|n IH]; intros v Hn t Hr; [destruct v; cbn in Hn; lia|].
-  destruct t as [ |bits|bits| | |e|e|k e|e|fs| ]; destruct v as [ |b|z|s|x|l|l|l|l|g]; try discriminate Hr; cbn [rt] in Hr; try reflexivity.
+  destruct t as [ |bits|bits| | |e|e|k e|e|fs| |sg bits e]; destruct v as [ |b|z|s|x|l|l|l|l|g]; try discriminate Hr; cbn [rt] in Hr; try reflexivity.
   - cbn [encj wfp leaf_ok]. destruct b; reflexivity.
   - apply andb_true_iff in Hr. destruct Hr as [Hw Hr]. cbn [encj wfp leaf_ok]. exact (int_leaf bits z Hw Hr).
   - apply andb_true_iff in Hr. destruct Hr as [Hw Hr]. cbn [encj wfp leaf_ok]. exact (uint_leaf bits z Hw).
@@ -381,6 +439,13 @@ Proof.
     apply fields_j_wfp; [exact Hcl|]. intros k' ft x Hin. pose proof (vn_in x l (vn_combine fs l k' ft x Hin)) as Hle. apply (IH x ltac:(lia) ft (Hc k' ft x Hin)).
   - destruct (bytes_of_ok l Hr) as [Hb _]. cbn [encj wfp leaf_ok]. fold (bytes_of l).
     destruct (plain_body_ok false _ (b64_text_is_plain (bytes_of l) Hb)) as [B _]. exact (body_ok_strbody false _ B).
+  - apply andb_true_iff in Hr. destruct Hr as [Hr Hall]. apply andb_true_iff in Hr. destruct Hr as [_ Hso].
+    cbn [encj wfp]. cbn [vn] in Hn. rewrite forallb_forall in Hall.
+    rewrite (sort_sorted (map (fun kx : list N * gv => (fst kx, encj e (snd kx))) l)) by (rewrite map_map; cbn [fst]; exact Hso).
+    apply forallb_forall. intros m Hm. apply in_map_iff in Hm. destruct Hm as ([k' j] & <- & Hkj). apply in_map_iff in Hkj. destruct Hkj as ([k2 x] & E & Hx).
+    inversion E; subst. cbn [fst snd negb andb]. specialize (Hall (k', x) Hx). cbn [fst snd] in Hall. apply andb_true_iff in Hall. destruct Hall as [Hk Hrx].
+    destruct (plain_body_ok false _ (canon_key_plain sg bits k' Hk)) as [B _]. rewrite (body_ok_strbody false _ B). cbn [andb].
+    pose proof (vn_in_snd (k', x) l Hx) as Hle. cbn [snd] in Hle. apply (IH x ltac:(lia) e Hrx).
 Qed.
 
 Lemma wfp_strip_n : forall n v, (size v <= n)%nat -> wfp v = true -> strip v = v.
